@@ -8,7 +8,13 @@ instant 0, context `Done` closing at `ctxAt`) one the model allows?
 Ticker lines drive a state-set engine over the JitterTicker LTS (quiescent-trace inclusion): the set
 of model states compatible with the observations so far is kept; `reject` = the set became empty.
 `new d j ok|panic`, `adv dt` (clock runs, virtual-time urgency), `settle` (= `synctest.Wait()`),
-`poll tick T|empty`, `reset d j ok|panic`, `stop ok|panic`. -/
+`poll tick T|empty`, `reset d j ok|panic`, `stop ok|panic`.
+
+The values of the random source are enumerated completely for the small jitters of the model-checked
+scripts. For arguments at the int64 boundaries (jitter up to 2^63) that is impossible; for them only
+the panic outcome is compared, outside the state set: `newp d j ok|panic` (does `NewJitterTicker(d, j)`
+panic in the model, for the two ends of the range of draws?) and `resetp d j ok|panic` (`Reset(d, j)`
+on a freshly created `(1000, 1)` ticker). -/
 namespace Juniper.Driver.C20
 open Juniper.Driver Juniper.Model.XTime Juniper.Gen.XTime
 
@@ -38,6 +44,15 @@ def step (s : St) : List String → St × String
   | ["new", d, j, o] =>
     let S := (0 :: randChoices (intOr j)).eraseDups.filterMap (create s.clock (intOr d) (intOr j))
     fin s (wantPanic o S) s!"new: model allows panic={(S.map (·.lastPanic)).eraseDups}"
+  | ["newp", d, j, o] =>
+    let S := (0 :: randChoices (intOr j)).eraseDups.filterMap (create 0 (intOr d) (intOr j))
+    let ps := (S.map (·.lastPanic)).eraseDups
+    (s, if ps == [o == "panic"] then "ok" else s!"reject newp: model allows panic={ps}")
+  | ["resetp", d, j, o] =>
+    let S := ((create 0 1000 1 0).toList).flatMap fun x =>
+      (0 :: randChoices (intOr j)).eraseDups.filterMap fun r => tstep x (.reset (intOr d) (intOr j) r)
+    let ps := (S.map (·.lastPanic)).eraseDups
+    (s, if ps == [o == "panic"] then "ok" else s!"reject resetp: model allows panic={ps}")
   | ["adv", dt] =>
     let t := s.clock + intOr dt
     fin { s with clock := t } (advanceTo 100000 t s.set) "adv"
